@@ -1,8 +1,17 @@
-(* C18 - locality of the readers: a reader that stops AT the first separator after a command has not looked beyond it.
-   For a text s whose reading stops at a rest r that still ends with the stop text u (the separator), reading s ++ t gives
-   the same value and the rest r ++ t, whatever t is.  Side conditions: the part of the text in front of u holds no line
-   break (a line break inside a length looks ahead for '^'), and u's first character occurs in none of the multi-character
-   patterns the readers test ("++" "--" "/*" "//" "*/" "0x" "0o" "Add" ".onTime" ...). *)
+(* C18 - locality: a reader (and one whole iteration of the lexer loop) that stops AT the character that follows a command has
+   not looked beyond it.  For a text e whose reading stops at a rest that still ends with the stop character c0, reading e ++ t
+   gives the same value and the rest with t appended, whatever t is.  Side conditions, all computable on the command text:
+     nolf     the command text holds no line break (a line break inside a length looks ahead for '^');
+     psafe    no suffix of (command text ++ [c0]) is a proper prefix of one of the multi-character patterns the readers test
+              ("++" "--" "/*" "//" "*/" "0x" "0o" "Add" "2Add" ".onTime" ".T" ".s(" "End" "END" "##" "# " "#-" "///" "/**"):
+              such a test would look beyond the end of the text;
+     sep_ok   when c0 is a line break, no '^' follows it (after blanks, line breaks and comments): the documented continuation;
+     no log   the iteration writes nothing to the log (an error entry quotes the text that follows).
+   Proof method: the left run (on e) is taken apart with the tactics of TermP.v, which also give the suffix chain of all
+   intermediate texts; the right run (on e ++ t) is then rewritten step by step with the locality lemmas of the sub-readers
+   (class Loc) - so a new reader needs one lemma of three lines.  ARMG is a generated copy of one iteration of the loop
+   (tools/regen_armg.py, from the LOOPG copy of LayoutP.v: run it after tools/regen_loopg.py when the model changes);
+   LOOPG_arm proves that the loop is this iteration followed by the loop. *)
 From Coq Require Import String Ascii.
 From Sakura.Model Require Import Base Cursor Length Event Song Token LexCore.
 From Sakura.Gen Require Import Consts SysFuncRows Messages VarRows.
@@ -1139,6 +1148,28 @@ Section Wrap.
     rewrite (Gloc c0 t (sep_ok_lf c0 t S) _ ln _ H (text_ok_pre cmd c0 T)); [reflexivity|apply suffix_refl].
   Qed.
 End Wrap.
+
+Theorem readers_local : forall (tb : Z) (cmd : list Z) (c0 : Z) (t : list Z) (ln : Z), text_ok cmd c0 = true -> sep_ok c0 t = true ->
+  (forall tk ln1, read_note_n tb (cmd ++ [c0]) ln = Ok (tk, [c0], ln1) -> read_note_n tb (cmd ++ c0 :: t) ln = Ok (tk, c0 :: t, ln1)) /\
+  (forall tk ln1, read_length tb (cmd ++ [c0]) ln = Ok (tk, [c0], ln1) -> read_length tb (cmd ++ c0 :: t) ln = Ok (tk, c0 :: t, ln1)) /\
+  (forall tk ln1, read_octave tb (cmd ++ [c0]) ln = Ok (tk, [c0], ln1) -> read_octave tb (cmd ++ c0 :: t) ln = Ok (tk, c0 :: t, ln1)) /\
+  (forall tk ln1, read_velocity tb (cmd ++ [c0]) ln = Ok (tk, [c0], ln1) -> read_velocity tb (cmd ++ c0 :: t) ln = Ok (tk, c0 :: t, ln1)) /\
+  (forall tk ln1, read_qlen tb (cmd ++ [c0]) ln = Ok (tk, [c0], ln1) -> read_qlen tb (cmd ++ c0 :: t) ln = Ok (tk, c0 :: t, ln1)) /\
+  (forall tk ln1, read_timing tb (cmd ++ [c0]) ln = Ok (tk, [c0], ln1) -> read_timing tb (cmd ++ c0 :: t) ln = Ok (tk, c0 :: t, ln1)) /\
+  (forall tk ln1, read_loop tb (cmd ++ [c0]) ln = Ok (tk, [c0], ln1) -> read_loop tb (cmd ++ c0 :: t) ln = Ok (tk, c0 :: t, ln1)) /\
+  (forall big tk ln1, read_pitch_bend big tb (cmd ++ [c0]) ln = Ok (tk, [c0], ln1) -> read_pitch_bend big tb (cmd ++ c0 :: t) ln = Ok (tk, c0 :: t, ln1)).
+Proof.
+  intros tb cmd c0 t ln T S.
+  repeat split; intros.
+  - exact (localr3 tok (read_note_n tb) (fun c0 t H => read_note_n_loc c0 t H tb) cmd c0 t ln _ _ H T S).
+  - exact (localr3 (option tok) (read_length tb) (fun c0 t H => read_length_loc c0 t H tb) cmd c0 t ln _ _ H T S).
+  - exact (localr3 (option tok) (read_octave tb) (fun c0 t H => read_octave_loc c0 t H tb) cmd c0 t ln _ _ H T S).
+  - exact (localr3 (option tok) (read_velocity tb) (fun c0 t H => read_velocity_loc c0 t H tb) cmd c0 t ln _ _ H T S).
+  - exact (localr3 (option tok) (read_qlen tb) (fun c0 t H => read_qlen_loc c0 t H tb) cmd c0 t ln _ _ H T S).
+  - exact (localr3 (option tok) (read_timing tb) (fun c0 t H => read_timing_loc c0 t H tb) cmd c0 t ln _ _ H T S).
+  - exact (localr3 tok (read_loop tb) (fun c0 t H => read_loop_loc c0 t H tb) cmd c0 t ln _ _ H T S).
+  - exact (localr3 tok (read_pitch_bend big tb) (fun c0 t H => read_pitch_bend_loc c0 t H big tb) cmd c0 t ln _ _ H T S).
+Qed.
 
 (* ------------------------------------------------------------------------------------------ *)
 (* programs: complete commands, each followed by a (possibly empty) layout                       *)
